@@ -3,9 +3,11 @@ Filter expression support for predicate pushdown and partition pruning.
 Converts user-friendly filter syntax to PyArrow filter expressions.
 """
 
+import math
+import struct
 from dataclasses import dataclass
 from enum import Enum
-from typing import TYPE_CHECKING, Any, Dict, List, Optional
+from typing import TYPE_CHECKING, Any, Dict, List, Optional, Tuple
 
 import pyarrow as pa
 import pyarrow.compute as pc
@@ -356,7 +358,9 @@ def _file_may_match(
                 # For IN: at least one value in the list must be in [file_min, file_max]
                 if expr.value:
                     has_possible_match = any(
-                        file_min <= v <= file_max for v in expr.value
+                        file_min <= candidate <= file_max
+                        for v in expr.value
+                        for candidate in _in_match_candidates(v)
                     )
                     if not has_possible_match:
                         return False
@@ -366,6 +370,23 @@ def _file_may_match(
             continue
 
     return True  # File may contain matches
+
+
+def _in_match_candidates(value: Any) -> Tuple[Any, ...]:
+    """Stored values that the scan's IN evaluation treats as equal to `value`.
+
+    pc.is_in casts the value set to the column's type, so on a 32-bit float
+    column a Python float matches the float32 it rounds to (0.3 matches the
+    stored 0.30000001192...), whereas the bounds hold the stored values as
+    doubles. Pruning must consider both readings or it skips files the
+    unpruned scan would have returned rows from.
+    """
+    if isinstance(value, float) and value == value:
+        try:
+            return (value, struct.unpack("f", struct.pack("f", value))[0])
+        except (OverflowError, struct.error):
+            return (value, math.copysign(math.inf, value))
+    return (value,)
 
 
 def get_column_id_by_name(schema: "Schema", column_name: str) -> Optional[int]:
